@@ -396,7 +396,13 @@ class World(EventDispatcher):
                                       ON_REMOVE_EVENT_NAME,
                                       removed, entity, self)
 
-                    self.remove_handler(removed)
+                    # A component shared by several entities keeps
+                    # listening until it leaves the last one of them
+                    if not any(self._entities[owner][subtype] is removed
+                               for owner in self._components.get(subtype,
+                                                                 ())):
+                        self.remove_handler(removed)
+
                     return removed
 
             fringe += subtype.__subclasses__()
